@@ -212,7 +212,7 @@ def read_wcs_from_header(header):
         crval.append(header.get('CRVAL{0}'.format(i), 0.0))
         cdelt.append(header.get('CDELT{0}'.format(i), 1.0))
 
-    if 'CD1_1' in header:
+    if len(header['CD?_?']) > 0:
         wcs_info['has_cd'] = True
     else:
         wcs_info['has_cd'] = False
@@ -225,7 +225,8 @@ def read_wcs_from_header(header):
                 else:
                     pc[i - 1, j - 1] = header['PC{0}_{1}'.format(i, j)]
             except KeyError:
-                if i == j:
+                # omitted PCi_j default to the unit matrix, omitted CDi_j to 0
+                if i == j and not wcs_info['has_cd']:
                     pc[i - 1, j - 1] = 1.
                 else:
                     pc[i - 1, j - 1] = 0.
